@@ -91,7 +91,7 @@ static void do_lookup(const jv *v)
     if (got != want) viol("C15", "GetPointerCaseSensitive(\"%s\") returns %s, RFC 6901 designates %s", p, got ? "another node" : "NULL", want ? "a node" : "nothing");
     else if (gotci != wantci) VD.drift++;     /* case-insensitive variant: modelled, carries no property */
     /* array elements that kept the key of an earlier life (detached from an object, added by a patch): arrays are indexed, never searched by name */
-    vb_stale_keys(doc, (int)(VD.cases & 3));
+    vb_stale_keys(doc, (int)(vd_salt() & 3));
     al_window(0); got = cJSONUtils_GetPointerCaseSensitive(doc, p);
     if (got != want) viol("C15", "GetPointerCaseSensitive(\"%s\") on a document whose array elements carry left-over keys returns %s, RFC 6901 designates %s", p, got ? "another node" : "NULL", want ? "a node" : "nothing");
     (void)h;
@@ -213,7 +213,7 @@ static void do_pair(const jv *v)
 {
     const jv *jf = jv_at(v, 1), *jt = jv_at(v, 2); int eq = (int)jv_int(jv_at(v, 3)), tonull = (int)jv_int(jv_at(v, 4)); char why[300] = "";
     cJSON *from = vb_build(jf), *to = vb_build(jt), *p, *copy; int st;
-    vb_payload(from, (int)(VD.cases & 1)); vb_payload(to, (int)((VD.cases >> 1) & 1));      /* the two documents need not have been built the same way */
+    vb_payload(from, 0); vb_payload(to, 1);      /* the two documents need not have been built the same way (independent of the order in which TLC emits the cases) */
     /* --- RFC 6902 generation --- */
     al_window(0); p = cJSONUtils_GeneratePatchesCaseSensitive(from, to);
     if (!p || (p->type & 0xFF) != cJSON_Array) viol("C17", "GeneratePatchesCaseSensitive did not return an array");
@@ -317,7 +317,7 @@ static void do_dup(const jv *v)
 {
     cJSON *src = vb_build(jv_at(v, 1)), *copy, *shallow; char why[300] = ""; uint64_t h = vb_hash(src, 0); blk *b; long bad;
     int refuse = (v->n >= 3) ? (int)jv_int(jv_at(v, 2)) : 0; long live0 = al_live;
-    al_window(0); copy = cJSON_Duplicate(src, vb_truthy(1, (unsigned long)VD.cases));
+    al_window(0); copy = cJSON_Duplicate(src, vb_truthy(1, vd_salt()));
     if (refuse) {      /* some node lies deeper than CJSON_CIRCULAR_LIMIT: refused, nothing kept, source untouched (whatever child the deep branch hangs off) */
         if (copy) { viol("C11", "cJSON_Duplicate copied a structure nested deeper than CJSON_CIRCULAR_LIMIT instead of refusing it"); cJSON_Delete(copy); }
         else if (al_live != live0) viol("C11 C07", "the refused duplicate of an over-deep structure leaves %ld block(s) allocated", al_live - live0);
